@@ -111,7 +111,7 @@ fn assemble_in(ctx: PreprocessorContext, src: &str) -> Result<Assembled, AsmErr>
                 // container types of the library's maps are not relied upon
                 fn_map: fn_map.into_iter().map(|(k, v)| (k, v as usize)).collect(),
                 undefined,
-                source_map: mapper.get_source_map().into_iter().collect(),
+                source_map: mapper.get_source_map().into_iter().map(|(k, v)| (crate::util::AsIndex::ix(k), crate::util::AsIndex::ix(v))).collect(),
             })
         }
     }
@@ -141,7 +141,7 @@ impl Assembled {
         for (k, (is_data, m)) in &self.labels {
             c.label_map.insert(
                 k.clone(),
-                lib::Label::new(if *is_data { LabelType::DATA } else { LabelType::CODE }, 0, *m),
+                lib::Label::new(if *is_data { LabelType::DATA } else { LabelType::CODE }, 0, *m as _),
             );
         }
         c.fn_map = self.fn_map.iter().map(|(k, v)| (k.clone(), *v as _)).collect();
